@@ -27,7 +27,9 @@ AWKWARD = ["null", "~", "yes", "on", "No", "true", "1e3", "0x10", "1_000", ".inf
            "a: b", "# not a comment", "it's", 'say "hi"', " leading", "trailing ", "two\nlines", "tab\there",
            "\x7f", "café", "中文", " sep", "emoji \U0001F600", "[1, 2]", "{a: 1}", "- dash", "? q",
            "|", ">", "%TAG", "@at", "`tick", "!!str x", "&anchor", "*alias", "", "0", "012", "1.", "+1", "=",
-           "2001-01-01", "12:30:45", "\\n literal", "﻿bom", "x" * 200]
+           "2001-01-01", "12:30:45", "\\n literal", "﻿bom", "x" * 200,
+           "first\x85second", "a\u2028b", "a\u2029b", "nbsp\xa0here", "bell\x07", "esc\x1b[0m", "del\x7fmid", "\x85", "c1\x9f",
+           "zero\u200bwidth", "rtl\u202eoverride", "sur\ufffdrep", "tab\tnl\n", "cr\rlf", "\u00e9\u0301", "line1\n\nline3", "trail\n"]
 NUMS = [0, 1, -0.0, 5e-324, 2.2250738585072014e-308, 0.1, 0.30000000000000004, 1 / 3, 1e22, 1e23, 1.7976931348623157e308,
         123456789012345678, 2 ** 53, 2 ** 53 + 1, 9007199254740993, 1e-7, 100.0, 1e16, 1.5e300]
 
